@@ -91,6 +91,10 @@ def rsa_verify(n, e, sig, msg, h="sha256"):
 
 
 # ---------------------------------------------------------------- certificates
+OID_AKI, OID_SKI, OID_KU, OID_BC = bytes([0x55, 0x1d, 0x23]), bytes([0x55, 0x1d, 0x0e]), bytes([0x55, 0x1d, 0x0f]), bytes([0x55, 0x1d, 0x13])
+BC_CA_NOLIMIT = bytes.fromhex("30030101ff")            # cA TRUE, no pathLenConstraint
+KU_SIGN_CRL = bytes.fromhex("03020106")                # keyCertSign | cRLSign
+KU_SIGN_ONLY = bytes.fromhex("03020204")               # keyCertSign
 class Cert:
     """the parts of a certificate the checks read or rewrite"""
     def __init__(self, der):
@@ -105,15 +109,40 @@ class Cert:
         self.serial = k[o][1]
         self.alg_in = k[o + 1][1]
         self.issuer, self.validity, self.subject, self.spki = k[o + 2][1], k[o + 3][1], k[o + 4][1], k[o + 5][1]
+        self.exts = []                      # [oid, critical, extnValue content]
+        for tag, c in k[o + 6:]:
+            if tag == 0xa3:
+                (_, seq), = kids(c)
+                for _, e in kids(seq):
+                    parts = kids(e)
+                    self.exts.append([parts[0][1], len(parts) == 3 and parts[1][1] != b"\x00", parts[-1][1]])
 
-    def reissue(self, key, serial=None, issuer=None, subject=None, alg=SHA256_RSA, drop_ext=()):
-        """same certificate with another serial / names, signed afresh by `key` (sha256WithRSAEncryption)"""
+    def ski(self):
+        for oid, _, val in self.exts:
+            if oid == bytes([0x55, 0x1d, 0x0e]): return kids(val)[0][1]
+        return None
+
+    def reissue(self, key, serial=None, issuer=None, subject=None, alg=SHA256_RSA, aki=None, ext=None):
+        """same certificate with another serial / names / authorityKeyIdentifier / extension values
+        (ext: {oid octets: new extnValue content, or None to drop the extension}), signed afresh by `key`
+        (sha256WithRSAEncryption)"""
         k = list(self.k); o = self.o
         algid = enc(6, alg) + b"\x05\x00"
         if serial is not None: k[o] = (2, serial)
         k[o + 1] = (0x30, algid)
         if issuer is not None: k[o + 2] = (0x30, issuer)
         if subject is not None: k[o + 4] = (0x30, subject)
+        if aki is not None or ext:
+            ext = dict(ext or {})
+            if aki is not None: ext[OID_AKI] = enc(0x30, enc(0x80, aki))
+            k = [x for x in k if x[0] != 0xa3]
+            seq = b""
+            for oid, crit, val in self.exts:
+                if oid in ext:
+                    if ext[oid] is None: continue
+                    val = ext[oid]
+                seq += enc(0x30, enc(6, oid) + (enc(1, b"\xff") if crit else b"") + enc(4, val))
+            k.append((0xa3, enc(0x30, seq)))
         tbs = enc(0x30, b"".join(enc(t, c) for t, c in k))
         return enc(0x30, tbs + enc(0x30, algid) + enc(3, b"\x00" + key.sign(tbs)))
 
@@ -139,7 +168,8 @@ def make_crl(issuer_name, key, serials, this_update=(2020, 1, 1), next_update=(2
     sig = key.sign(tbs)
     if tamper:
         # change the list after signing: flip one bit in the last entry's serial (or in thisUpdate)
-        i = tbs.rfind(enc(2, serials[-1])) + 2 + len(serials[-1]) - 1 if serials else len(tbs) - 3
+        ne = [x for x in serials if len(x) > 0]
+        i = tbs.rfind(enc(2, ne[-1])) + 2 + len(ne[-1]) - 1 if ne else tbs.find(b"Z") - 1     # last serial octet, or a digit of thisUpdate
         tbs = tbs[:i] + bytes([tbs[i] ^ 0x01]) + tbs[i + 1:]
     return enc(0x30, tbs + enc(0x30, algid) + enc(3, b"\x00" + sig))
 
